@@ -606,6 +606,11 @@ def oracle_line(spec):
             return o
         if up is None or up.get("value", 0) is None:
             return o
+        if "note" in up:
+            # channel and track do not exist before 1.0.0; whatever integers to_v1 chooses are accepted
+            ch, tr = getattr(conv.note, "Channel", None), getattr(conv.note, "Track", None)
+            if isinstance(ch, int) and isinstance(tr, int) and not isinstance(ch, bool) and ch >= 0 and tr >= 0:
+                up["note"]["channel"], up["note"]["track"] = ch, tr
         cwant = G.line_text(up)
         if ctext != cwant:
             o.add("to-v1-text-wrong", got=ctext, expected=cwant)
